@@ -17,8 +17,9 @@ using Oomd::Engine::BasePlugin;
 namespace IR = Oomd::Config2::IR;
 enum { K_FLAGS = 10, K_OP = 20 };
 struct Hook : Oomd::Engine::PrekillHook {
+  // identity travels in the registered name "h<id>"; init() is the real PrekillHook::init (cgroup pattern parsing)
   int id{-1};
-  int init(const Oomd::Engine::PluginArgs& args, const PluginConstructionContext&) override { auto it = args.find("id"); if (it == args.end()) return 1; id = std::stoi(it->second); return 0; }
+  void setName(const std::string& name) override { Oomd::Engine::PrekillHook::setName(name); id = 0; for (size_t i = 1; i < name.size(); i++) id = id * 10 + (name[i] - '0'); }
   std::unique_ptr<Oomd::Engine::PrekillHookInvocation> fire(const CgroupContext&, const ActionContext&) override { return nullptr; }
 };
 struct Adaptor : DropInServiceAdaptor {
@@ -31,7 +32,8 @@ struct Adaptor : DropInServiceAdaptor {
 };
 static IR::Detector det(int code) { IR::Detector d; d.name = "s"; d.args["id"] = std::to_string(code); return d; }
 static IR::Action act(int code) { IR::Action a; a.name = "s"; a.args["id"] = std::to_string(100 + code); return a; }
-static IR::PrekillHook hk(int id) { IR::PrekillHook h; h.name = "h"; h.args["id"] = std::to_string(id); return h; }
+static std::string hname(int id) { return std::string("h") + std::to_string(id); }
+static IR::PrekillHook hk(int id) { IR::PrekillHook h; h.name = hname(id); h.args["cgroup"] = "x"; return h; }
 static IR::Ruleset dropinRs(const char* target, int j, int sub, int content) {
   IR::Ruleset rs; rs.name = target;
   if (content & 1) { IR::DetectorGroup g; g.name = "g0"; g.detectors.push_back(det(CODE_DI_DET(j, sub))); rs.dgs.push_back(g); }
@@ -49,10 +51,22 @@ static IR::Root candidate(int j, int target, int content, int hook) {
 }
 extern "C" void harness(void) {
   getPluginRegistry().add("s", []() -> BasePlugin* { return new vfh::Scripted(); });
-  getPrekillHookRegistry().add("h", []() -> Oomd::Engine::PrekillHook* { return new Hook(); });
-  IR::Root root;
+  getPrekillHookRegistry().add(hname(HOOK_BASE_ID), []() -> Oomd::Engine::PrekillHook* { return new Hook(); });
+  for (int j = 0; j < H_K; j++) getPrekillHookRegistry().add(hname(HOOK_DI_ID(j)), []() -> Oomd::Engine::PrekillHook* { return new Hook(); });
+  // long-lived objects are deliberately never destroyed: teardown of the whole engine is not a subject of C13 and costs
+  // more symbolic execution than the operations themselves
+  static IR::Root root;   // static storage: typed object, never destroyed
+#if defined(H_STOP) && (H_STOP == 1 || H_STOP >= 3)
+  for (int r = 0; r < 0; r++) {
+#else
   for (int r = 0; r < 2; r++) {
+#endif
+#ifdef H_FLAGS
+    static const int kFlags[2] = H_FLAGS;   // drop-in permissions of the two base rulesets are concrete per variant (they decide the *shape* of the engine)
+    const int fl = kFlags[r];
+#else
     int fl = (int)vf_nd(K_FLAGS + r, 0, 7);
+#endif
     vf_cfg_set(CFG_BASEFLAGS, r, fl);
     IR::Ruleset rs; rs.name = vfh::nameOf('r', r);
     IR::DetectorGroup g; g.name = "g0"; g.detectors.push_back(det(CODE_BASE_DET(r))); rs.dgs.push_back(g);
@@ -63,10 +77,20 @@ extern "C" void harness(void) {
   }
   root.prekill_hooks.push_back(hk(HOOK_BASE_ID));
   PluginConstructionContext pcc("/c");
-  auto engine = Config2::compile(root, pcc);
-  if (!engine) { vf_fail("harness: base configuration must compile"); return; }
-  Adaptor ad("/c", root, *engine);
-  OomdContext ctx;
+#if defined(H_STOP) && H_STOP == 3
+  { auto& hk0 = root.prekill_hooks[0]; std::unique_ptr<Oomd::Engine::PrekillHook> h(getPrekillHookRegistry().create(hk0.name)); h->setName(hk0.name); int rc = h->initPlugin(hk0.args, pcc); vf_event(EV_NOTE, 78, rc, 0, 0); return; }
+#endif
+#if defined(H_STOP) && H_STOP == 4
+  { IR::PrekillHook hk0 = hk(HOOK_BASE_ID); std::unique_ptr<Oomd::Engine::PrekillHook> h(getPrekillHookRegistry().create(hk0.name)); h->setName(hk0.name); int rc = h->initPlugin(hk0.args, pcc); vf_event(EV_NOTE, 78, rc, 0, 0); return; }
+#endif
+  auto engine_up = Config2::compile(root, pcc);
+  if (!engine_up) { vf_fail("harness: base configuration must compile"); return; }
+  Oomd::Engine::Engine* engine = engine_up.release();
+#if defined(H_STOP)
+  vf_event(EV_NOTE, 77, 0, 0, 0); return;
+#endif
+  Adaptor& ad = *new Adaptor("/c", root, *engine);
+  OomdContext& ctx = *new OomdContext;
   vf_event(EV_OP, 100, 0, 0, 0);
   for (int j = 0; j < H_K; j++) {
 #ifdef H_OPS
